@@ -19,6 +19,15 @@ pub struct Expr<'a> {
 
 impl<'a> Parse<'a> for Expr<'a> {
     fn parse(lexer: &mut Lexer<'a>) -> ParseResult<Self> {
+        lexer.enter()?;
+        let result = Self::parse_nested(lexer);
+        lexer.leave();
+        result
+    }
+}
+
+impl<'a> Expr<'a> {
+    fn parse_nested(lexer: &mut Lexer<'a>) -> ParseResult<Self> {
         let primary = PrimaryExpr::parse(lexer)?;
 
         // Currently, only the access expressions are supported for postfix expressions.
